@@ -17,7 +17,7 @@ import (
 
 func c09DiscoveryRun(e *Env) {
 	t := e.Tape
-	mode := t.Choose(4) // 0 serving, 1 Serve not called yet, 2 Stop while discovering, 3 listener closed (Serve returned) before
+	mode := t.Choose(5) // 0 serving, 1 Serve not called yet, 2 Stop while discovering, 3 listener closed (Serve returned) before, 4 listener closed while discovering
 	dn := NewDNet(e)
 	addr := UDPAddr("10.0.0.100", 5683)
 	sock := dn.Socket(addr, nil)
@@ -42,9 +42,14 @@ func c09DiscoveryRun(e *Env) {
 		_ = l.Close()
 		e.Wait()
 	}
-	e.Logf("cfg discovery mode=%s", []string{"serving", "serve-not-called-yet", "stop-while-discovering", "listener-closed-before"}[mode])
+	e.Logf("cfg discovery mode=%s", []string{"serving", "serve-not-called-yet", "stop-while-discovering", "listener-closed-before", "listener-closed-while-discovering"}[mode])
 	timeout := []time.Duration{500 * time.Millisecond, 2 * time.Second, 10 * time.Second}[t.Choose(3)]
 	ctx, cancel := context.WithTimeout(context.Background(), timeout)
+	if mode == 4 {
+		// no deadline: the discovery runs until the application ends it - or the connection it runs on is closed
+		cancel()
+		ctx, cancel = context.WithCancel(context.Background())
+	}
 	e.OnCleanup(cancel)
 	done, started := false, e.Now()
 	var doneAt time.Duration
@@ -56,8 +61,14 @@ func c09DiscoveryRun(e *Env) {
 	}()
 	e.Wait()
 	e.NonTrivial()
-	e.Probe("discovery.mode." + []string{"serving", "notServingYet", "stopWhile", "listenerClosed"}[mode])
-	cancelEarly := t.Chance(1, 3)
+	e.Probe("discovery.mode." + []string{"serving", "notServingYet", "stopWhile", "listenerClosed", "listenerClosedWhile"}[mode])
+	cancelEarly := t.Chance(1, 3) && mode != 4
+	if mode == 4 {
+		e.Sleep(timeout / 4)
+		e.Logf("the application closes the socket the server is serving (no Stop)")
+		_ = l.Close()
+		e.Wait()
+	}
 	if mode == 2 {
 		e.Sleep(timeout / 4)
 		e.Logf("Stop")
@@ -77,7 +88,7 @@ func c09DiscoveryRun(e *Env) {
 	_ = serveRet
 	e.mu.Unlock()
 	if !d {
-		e.Violate("C09.R1", "discovery-ignores-its-context:"+[]string{"serving", "server-not-serving-yet", "stop-while-discovering", "serve-has-returned"}[mode], "Discover (context of %v, cancelled early: %v) has not returned %v after it was started", timeout, cancelEarly, e.Now()-started)
+		e.Violate("C09.R1", "discovery-ignores-its-context:"+[]string{"serving", "server-not-serving-yet", "stop-while-discovering", "serve-has-returned", "connection-closed-while-discovering"}[mode], "Discover (context of %v, cancelled early: %v) has not returned %v after it was started", timeout, cancelEarly, e.Now()-started)
 		return
 	}
 	e.Logf("Discover returned after %v", at-started)
